@@ -15,10 +15,23 @@ theorem farm_all_translated : Irismod.Gen.PureFarm.untranslated = [] := rfl
 
 /-- the translated definitions are exactly these, in source order -/
 theorem farm_translated_pinned : Irismod.Gen.PureFarm.translated =
-    ["updatePool_blockInterval_1", "updatePool_rewardCollected_1", "updatePool_newRewardPerShare_1",
-     "updatePool_rules_i_RewardPerShare_1", "updatePool_rules_i_RemainingReward_1", "updatePool_guard_1",
-     "updatePool_guard_2", "updatePool_guard_3", "CaclRewards_pendingRewardTotal_1", "CaclRewards_pendingReward_1",
-     "CaclRewards_locked_1", "CaclRewards_debt_1"] := rfl
+    ["updatePool_blockInterval_1",
+     "updatePool_rewardCollected_1",
+     "updatePool_newRewardPerShare_1",
+     "updatePool_rules_i_RewardPerShare_1",
+     "updatePool_rules_i_RemainingReward_1",
+     "updatePool_guard_1",
+     "updatePool_guard_2",
+     "updatePool_cond_3",
+     "updatePool_guard_4",
+     "updatePool_cond_5",
+     "updatePool_cond_6",
+     "updatePool_cond_7",
+     "CaclRewards_pendingRewardTotal_1",
+     "CaclRewards_pendingReward_1",
+     "CaclRewards_locked_1",
+     "CaclRewards_debt_1",
+     "CaclRewards_cond_1"] := rfl
 
 /-- block interval of a release: `height - last` (int64 subtraction does not wrap for heights of a chain) -/
 theorem updatePool_blockInterval_eq (h last : Nat) (hl : last ≤ h) (hh : h < 9223372036854775808) :
@@ -31,14 +44,14 @@ theorem updatePool_blockInterval_eq (h last : Nat) (hl : last ≤ h) (hh : h < 9
 
 /-- the height guard and the per-rule budget guard of `updatePool` -/
 theorem updatePool_guards (h last rem rc : Int) :
-    updatePool_guard_1 h last = some (decide (h < last)) ∧ updatePool_guard_3 rem rc = some (decide (rem < rc)) :=
+    updatePool_guard_1 h last = some (decide (h < last)) ∧ updatePool_guard_4 rem rc = some (decide (rem < rc)) :=
   ⟨rfl, rfl⟩
 
 /-- what one iteration of the release loop stores for a rule: the new reward per share and the new remaining budget
 (`none`: the iteration rejects or panics) — composed from the translated assignments in source order -/
 def releaseIteration (rpb remaining : Int) (rps : Dec) (interval locked : Int) : Option (Dec × Int) :=
   updatePool_rewardCollected_1 rpb interval >>= fun rc =>
-  updatePool_guard_3 remaining rc >>= fun short =>
+  updatePool_guard_4 remaining rc >>= fun short =>
   if short then none else
   updatePool_newRewardPerShare_1 rc ⟨"", locked⟩ >>= fun q =>
   updatePool_rules_i_RewardPerShare_1 rps q >>= fun rps' =>
@@ -53,7 +66,7 @@ theorem collectRule_eq_translation (interval locked : Nat) (r : Rule)
       (match collectRule interval locked r with
        | .ok r' => some (r'.rps, (r'.remaining : Int))
        | .error _ => none) := by
-  unfold releaseIteration updatePool_rewardCollected_1 updatePool_guard_3 updatePool_newRewardPerShare_1
+  unfold releaseIteration updatePool_rewardCollected_1 updatePool_guard_4 updatePool_newRewardPerShare_1
     updatePool_rules_i_RewardPerShare_1 updatePool_rules_i_RemainingReward_1 collectRule
   simp only [Int_Mul_nat, h1, if_true, obind_some, Int_LT, LegacyNewDecFromInt, Dec_QuoInt, Dec_Add]
   have hcast : ((r.remaining : Int) < ((r.rpb * interval : Nat) : Int)) ↔ r.remaining < r.rpb * interval := Int.ofNat_lt
